@@ -561,7 +561,13 @@ impl<T: Storage> RawNode<T> {
 
         // Leader can send messages immediately to make replication concurrently.
         // For more details, check raft thesis 10.2.1.
-        rd.is_persisted_msg = raft.state != StateRole::Leader;
+        // That only holds once the term it leads and its own vote are durable: a node that is
+        // the only voter wins its election inside the step that starts it, so the messages to
+        // its learners must wait until this Ready's hard state has been persisted.
+        let term_durable = rd.hs.as_ref().map_or(true, |hs| {
+            hs.term == self.prev_hs.term && hs.vote == self.prev_hs.vote
+        });
+        rd.is_persisted_msg = raft.state != StateRole::Leader || !term_durable;
         rd.light = self.gen_light_ready();
         self.records.push_back(rd_record);
         rd
